@@ -19,6 +19,9 @@ CLAIMED['C03'] = dict(ref='5.3', text='K2 (0 <= n <= len, n >= 1 for framing uni
 CLAIMED['C10'] = dict(ref='5.10', text='For every NByteEnumParsable factory the real linear search is proved, for the whole code space at once (symbolic code, loop contract over the member table), to return the first member carrying the code or raise InvalidValue; decoded members carry the wire code and re-encode to the same bytes; coded vectors keep every item, preserve unknown/GREASE codes through parse and compose for any number of items, and classify GREASE exactly; installed tables are checked for names sharing a code.',
                 note='cryptodatahub tables taken as installed; string-coded enumerations (text layer) are covered by the ground table obligations only; pyvc and z3 trusted.',
                 technique='contract-based deductive verification: table-lookup contract refined by the real search loop (loop contract), symbolic code space, z3; ground table obligations decided natively')
+CLAIMED['C12'] = dict(ref='5.12', text='For every vector class with fixed-size items (numeric, opaque, coded) and every sequence operation (insert, append, del/pop by index, item assignment, slice deletion, slice assignment, extend, +=, clear, reverse), starting from an arbitrary vector that satisfies the representation invariant (symbolic length, contents, position and values): success implies the invariant and the result a plain list would hold, a refused edit raises a data-length error (or the list IndexError) and changes nothing; compose() emits a prefix equal to the body size that fits its width. Preservation by every operation makes the invariant inductive over edit histories of any length.',
+                note='vectors of variable-size items (size is a sum over items) and MutableSequence.remove are not covered; MutableSequence mix-ins interpreted from the stdlib source; pyvc and z3 trusted.',
+                technique='contract-based deductive verification: representation invariant + refinement to a list model per operation (inductive over histories), loop contracts, z3')
 PENDING = {}
 NA = {
     'C18': 'relational property over RFC text grammars; every code path is ParserText scanning loops, attrs reflection in FieldValueMultiple, dateutil/urllib3/json: no contract within reach of the installed SMT back ends expresses or decides it (DESIGN.md 5.18)',
